@@ -569,9 +569,28 @@ def defs_on_spine(root: Node, allow_any_order=False) -> bool:
                         count(x)
     count(root)
 
+    def local_uses(node, acc):
+        if node.kind in ("icap", "ocap", "oreg"):
+            key = (node.kind[0], node.name if node.kind != "oreg" else node.extra[1])
+            acc[key] = acc.get(key, 0) + 1
+        for c in (node.children or []):
+            local_uses(c, acc)
+        if node.kind == "oderef":
+            for v in node.extra.values():
+                for x in v:
+                    if isinstance(x, Node):
+                        local_uses(x, acc)
+        return acc
+
     def walk(node, on_spine, dead=False):
         dead = dead or node.hi == 0          # an element repeated zero times never executes: a name that occurs only there binds nothing
         here = on_spine and node.lo == 1 and node.hi == 1
+        if node.kind in ("igroup", "ogroup") and node.name == "not" and node.lo == 1 and node.hi == 1 and not dead:
+            # a name whose every occurrence lies inside this one $not lives and dies with the attempt to match its argument:
+            # the argument is a spine of its own (executed once per attempt, nothing of it survives the $not)
+            inside = local_uses(node, {})
+            if inside and all(uses.get(k) == v for k, v in inside.items()):
+                return all(walk(c, True, dead) for c in node.children)
         if node.is_def and not here:
             key = node.name if node.kind != "oreg" else node.extra[1]
             if not (dead and uses.get((node.kind[0], key), 0) == 1):
